@@ -49,7 +49,10 @@ EXTRA = {
         "cells are scalars of the native types a reader produces: str, None, int, float, bool, datetime, date/time "
         "(kept as opaque `other`); rows are lists. Unhashable cells (list, dict) in an onoff column raise TypeError in "
         "the dictionary lookup — outside the input domain of every reader",
-        "read_csv is exercised on io.StringIO and on a file on disk (locale encoding, lines end in \\n); separator ';'",
+        "read_csv is exercised on io.StringIO and on a file on disk (locale encoding, lines end in \\n); separator ';'; "
+        "the file route also reads by RELATIVE path while the environment changes after the first delivered block (the "
+        "working directory moves away, the file is unlinked or renamed — POSIX: an open file stays readable): the "
+        "verdict must not change",
         "truncation is at CHARACTER granularity (the property's quantifier). A file cut inside a multi-byte UTF-8 "
         "character makes the text decoder raise UnicodeDecodeError in `for line in f`, before any row reaches the reader: "
         "byte granularity is outside the quantifier and not exercised",
@@ -172,7 +175,7 @@ def recording_table_handler(to, rec):
         B._table_handlers[to] = orig
 
 
-def run_reader(route, payload, to, tracker, fixer_kind):
+def run_reader(route, payload, to, tracker, fixer_kind, env=None):
     """the real reader: route "native" (parse_blocks on the row objects as given: lists or tuples), "text"
     (read_csv on io.StringIO), "file" (read_csv on a path), "excel" (read_excel on a path).
     -> blocks / issues / ending as bc.impl_parse_blocks, + "tables": [(origin row, value)] of the delivered tables"""
@@ -191,6 +194,12 @@ def run_reader(route, payload, to, tracker, fixer_kind):
                 gen = read_csv(io.StringIO(payload), to=to, issue_tracker=tr, fixer=fixer)
             elif route == "file":
                 gen = read_csv(payload, to=to, issue_tracker=tr, fixer=fixer)
+            elif route == "file-env":
+                # a RELATIVE path, and the environment changes while the reader is at work (after the first block
+                # was handed over): the working directory moves away, or the file is unlinked / renamed
+                folder, name = payload
+                os.chdir(folder)
+                gen = read_csv(name, to=to, issue_tracker=tr, fixer=fixer)
             else:
                 gen = read_excel(payload, to=to, issue_tracker=tr, fixer=fixer)
             for bt, val in gen:
@@ -200,16 +209,32 @@ def run_reader(route, payload, to, tracker, fixer_kind):
                 except AttributeError:
                     pass
                 blocks.append({"ty": bt.name, "first": first, "val": bc.canon_block(bt, val, to)})
+                if route == "file-env" and len(blocks) == 1:
+                    if env == "chdir":
+                        os.chdir("/")
+                    elif env == "unlink":
+                        os.remove(os.path.join(folder, name))
+                    elif env == "rename":
+                        os.replace(os.path.join(folder, name), os.path.join(folder, name + ".moved"))
     except InputError as e:
         issue = e.args[0]
         ending = {"InputError": getattr(getattr(issue, "load_location", None), "row", None)}
     except Exception as e:  # noqa: BLE001
         ending = {"escaped": type(e).__name__}
+    finally:
+        if route == "file-env":
+            os.chdir(_CWD)
+            for leftover in (name, name + ".moved"):
+                with contextlib.suppress(OSError):
+                    os.remove(os.path.join(folder, leftover))
     issues = [getattr(i.load_location, "row", None) for i in tr.issues] if tr is not None else \
         ([ending["InputError"]] if isinstance(ending, dict) and "InputError" in ending else [])
     tvals = [b["val"] for b in blocks if b["ty"] == "TABLE"]
     tables = list(zip(rec, tvals)) if len(rec) == len(tvals) else [(None, v) for v in tvals]
     return {"blocks": blocks, "issues": issues, "ending": ending, "tables": tables}
+
+
+_CWD = os.getcwd()
 
 
 def write_text_file(tmpdir, text, n):
@@ -543,6 +568,8 @@ def one_base(seed, bi, thorough, out, model_ok, ops, pend, tmpdir, only=None):
                 # a file on disk instead of a stream: every character truncation in the quick tier, a share otherwise
                 if (kind == "trunc_char" and (not thorough or r4 < 0.3)) or r4 < 0.08:
                     how = "file"
+                elif r4 < 0.2:
+                    how = "file-env:" + ["chdir", "unlink", "rename"][idx % 3]
             elif r4 < 0.5:
                 how = "native-tuples"                      # rows as tuples, as the Excel reader delivers them
             case = {"seed": seed, "base": bi, "index": idx, "route": how, "kind": kind, "detail": detail, "to": to,
@@ -561,6 +588,8 @@ def one_base(seed, bi, thorough, out, model_ok, ops, pend, tmpdir, only=None):
             if how == "file":
                 n_files += 1
                 payload = write_text_file(tmpdir, dtext, n_files)
+            elif how.startswith("file-env"):
+                payload = None
             elif how == "text":
                 payload = dtext
             elif how == "native-tuples":
@@ -569,7 +598,13 @@ def one_base(seed, bi, thorough, out, model_ok, ops, pend, tmpdir, only=None):
                 payload = [list(r) for r in drows]
             res = {}
             for tr in trackers:
-                res[tr] = run_reader({"native-tuples": "native"}.get(how, how), payload, to, tr, fixer_kind)
+                if how.startswith("file-env"):
+                    n_files += 1
+                    path = write_text_file(tmpdir, dtext, n_files)
+                    res[tr] = run_reader("file-env", (tmpdir, os.path.basename(path)), to, tr, fixer_kind,
+                                         env=how.split(":")[1])
+                else:
+                    res[tr] = run_reader({"native-tuples": "native"}.get(how, how), payload, to, tr, fixer_kind)
                 e = res[tr]["ending"]
                 out.count("ending:" + tr + ":" + (e if isinstance(e, str) else next(iter(e))))
             if how == "file":
